@@ -14,13 +14,25 @@ import (
 	"sort"
 	"strconv"
 	"strings"
+	"time"
 
+	"github.com/mgtv-tech/redis-GunYu/config"
 	"github.com/mgtv-tech/redis-GunYu/pkg/rdb"
 	"github.com/mgtv-tech/redis-GunYu/pkg/vfdoubles"
 	"github.com/mgtv-tech/redis-GunYu/pkg/vfutil"
 )
 
-const BubbleNowMs = 946684800000 // synctest epoch 2000-01-01T00:00:00Z
+// BubbleNowMs: the synctest epoch 2000-01-01T00:00:00Z plus 137 ms — every
+// bubble calls SettleClock first, so that the code's time.Now() is NOT a whole
+// second (second-granular clock arithmetic would otherwise be unobservable).
+const BubbleNowMs = 946684800137
+
+// SettleClock advances the bubble's virtual clock to BubbleNowMs.
+func SettleClock() {
+	if d := BubbleNowMs - time.Now().UnixMilli(); d > 0 {
+		time.Sleep(time.Duration(d) * time.Millisecond)
+	}
+}
 
 type KVSpec struct {
 	DB    int      `json:"db,omitempty"`
@@ -47,6 +59,51 @@ type Case struct {
 	Ver     string   `json:"ver"`
 	KVs     []KVSpec `json:"kvs"`
 	Pre     []Pre    `json:"pre"`
+	// PolRaw: the policy string as configured ("" unless UseRaw); the real code
+	// gets config.ReplayConfig.fix(PolRaw).KeyExists, model and monitor get Pol
+	// (what the documentation promises for that string)
+	PolRaw string `json:"polraw,omitempty"`
+	UseRaw bool   `json:"useraw,omitempty"`
+	// Bad: keys (hex) whose RESTORE the target answers with "Bad data format"
+	Bad []string `json:"bad,omitempty"`
+	// Log: keyExistsLog on
+	Log bool `json:"log,omitempty"`
+	// Window (bisync, restore): a client creates this key (hex) between the
+	// EXISTS probe and the unit's MULTI/EXEC
+	Window string `json:"window,omitempty"`
+	// Parallel > 0: mode "send" runs the real SendRdb with that many workers
+	Parallel int `json:"parallel,omitempty"`
+}
+
+// NormalPolicy: what the configuration documents for a policy string.
+func NormalPolicy(raw string) string {
+	switch strings.ToLower(raw) {
+	case "ignore":
+		return "ignore"
+	case "error":
+		return "error"
+	}
+	return "replace"
+}
+
+// RealPol: the policy string the code under test is configured with — through
+// the REAL config.ReplayConfig.fix when the case carries a raw string.
+func (c *Case) RealPol() (string, error) {
+	if !c.UseRaw {
+		return c.Pol, nil
+	}
+	rc := config.ReplayConfig{KeyExists: c.PolRaw}
+	err := config.VerifFixReplay(&rc)
+	return rc.KeyExists, err
+}
+
+func (c *Case) IsBad(key []byte) bool {
+	for _, b := range c.Bad {
+		if string(vfutil.UnHex(b)) == string(key) {
+			return true
+		}
+	}
+	return false
 }
 
 func (c *Case) JSON() string {
@@ -63,7 +120,7 @@ func ExpireAtOf(code int) uint64 {
 	case 1:
 		return 1000 // long past
 	case 2:
-		return BubbleNowMs + 3600_000
+		return BubbleNowMs + 3600_123
 	}
 	return 0
 }
@@ -296,8 +353,8 @@ func Emit(s *vfutil.Session, idx int, c *Case, r *Run) {
 	for _, k := range ks {
 		fin = append(fin, fmt.Sprintf("%d:%s", k.DB, vfutil.HexS(k.Key)))
 	}
-	op := fmt.Sprintf("c20 tag=%d mode=%s pol=%s restore=%s maxbulk=%d ver5=%s now=%d pre=%s fin=%s ents=%s", idx, c.Mode, c.Pol[:1],
-		b01(c.Restore), c.MaxBulk, ver5, int64(BubbleNowMs), join(pre, ","), join(fin, ","), join(ents, ";"))
+	op := fmt.Sprintf("c20 tag=%d mode=%s pol=%s restore=%s maxbulk=%d ver5=%s now=%d pre=%s bad=%s fin=%s ents=%s", idx, c.Mode, c.Pol[:1],
+		b01(c.Restore), c.MaxBulk, ver5, int64(BubbleNowMs), join(pre, ","), join(c.Bad, ","), join(fin, ","), join(ents, ";"))
 	var out []string
 	li := 0
 	if c.Mode == "plain" {
@@ -397,8 +454,20 @@ func Check(s *vfutil.Session, c *Case, r *Run) {
 		failIdx = -1
 		for i, kv := range kvs {
 			if string(kv.Key) == r.FailKey {
+				k := DK{kv.DB, string(kv.Key)}
+				if r.Final == "err-exists" && !(pre[k] && r.Before[k] != nil) {
+					continue // the same key name in another DB, not held by the target
+				}
 				failIdx = i
 				break
+			}
+		}
+		if failIdx < 0 {
+			for i, kv := range kvs {
+				if string(kv.Key) == r.FailKey {
+					failIdx = i
+					break
+				}
 			}
 		}
 		if failIdx < 0 {
@@ -412,7 +481,7 @@ func Check(s *vfutil.Session, c *Case, r *Run) {
 	viaRestore := func(kv KV) bool {
 		for _, e := range r.Ents {
 			if string(e.Key) == string(kv.Key) && e.DB == kv.DB {
-				return c.Restore && e.CanRestore && e.DumpSize <= c.MaxBulk && !e.Splited
+				return c.Restore && e.CanRestore && e.DumpSize <= c.MaxBulk && !e.Splited && !c.IsBad(kv.Key)
 			}
 		}
 		return false
@@ -503,6 +572,114 @@ func Check(s *vfutil.Session, c *Case, r *Run) {
 	}
 }
 
+// CheckParallel: the monitor for mode "send" (the real SendRdb with several
+// workers: no request order to compare, other workers may have applied any
+// subset when one of them stops on the `error` policy).
+func CheckParallel(s *vfutil.Session, c *Case, r *Run) {
+	kvs := c.KVList()
+	pre := map[DK]bool{}
+	for _, p := range c.Pre {
+		pre[DK{p.DB, string(vfutil.UnHex(p.Key))}] = true
+	}
+	mustFail := false
+	for _, kv := range kvs {
+		k := DK{kv.DB, string(kv.Key)}
+		if c.Pol == "error" && pre[k] && r.Before[k] != nil {
+			mustFail = true
+		}
+	}
+	if mustFail && r.Final == "ok" {
+		viol(s, "error-not-raised", "policy error with an existing key: SendRdb returned nil", c)
+	}
+	if !mustFail && r.Final != "ok" {
+		viol(s, "unexpected-error", fmt.Sprintf("SendRdb failed with %s: %s", r.Final, r.ErrText), c)
+		return
+	}
+	for _, kv := range kvs {
+		k := DK{kv.DB, string(kv.Key)}
+		existed := pre[k] && r.Before[k] != nil
+		var mods []string
+		for _, q := range r.Log {
+			if len(q.Args) < 2 || string(q.Args[1]) != k.Key || q.DB != k.DB {
+				continue
+			}
+			cmd := q.Cmd()
+			if cmd == "exists" || cmd == "select" {
+				continue
+			}
+			if cmd == "restore" {
+				rep := false
+				for _, a := range q.Args[4:] {
+					if strings.EqualFold(string(a), "replace") {
+						rep = true
+					}
+				}
+				if !rep {
+					continue
+				}
+			}
+			mods = append(mods, q.String())
+		}
+		viaRestore := false
+		for _, e := range r.Ents {
+			if string(e.Key) == k.Key && e.DB == k.DB {
+				viaRestore = c.Restore && e.CanRestore && e.DumpSize <= c.MaxBulk && !e.Splited && !c.IsBad(kv.Key)
+				break
+			}
+		}
+		want := ExpectVal(kv, viaRestore, BubbleNowMs)
+		switch {
+		case existed && (c.Pol == "ignore" || c.Pol == "error"):
+			s.Count("mon_parallel_" + c.Pol + "_existing")
+			if !SameVal(r.Before[k], r.After[k]) {
+				viol(s, c.Pol+"-modified", fmt.Sprintf("parallel replay, policy %s: existing key %q (db %d) changed: before=%+v after=%+v", c.Pol, k.Key, k.DB, r.Before[k], r.After[k]), c)
+			} else if len(mods) > 0 {
+				viol(s, c.Pol+"-touched", fmt.Sprintf("parallel replay, policy %s: write request on existing key %q: %v", c.Pol, k.Key, mods), c)
+			}
+		case mustFail:
+			// another worker stopped the replay: this key is complete or untouched or cut between chunks — not judged
+		default:
+			s.Count("mon_parallel_final")
+			if !SameVal(want, r.After[k]) {
+				viol(s, "replace-final", fmt.Sprintf("parallel replay: key %q (db %d) ends with %+v, snapshot says %+v (existed=%v)", k.Key, k.DB, r.After[k], want, existed), c)
+			}
+		}
+	}
+}
+
+// CheckWindow: a client created the key between the EXISTS probe and the
+// unit's EXEC (bidirectional replay, RESTORE path).
+func CheckWindow(s *vfutil.Session, c *Case, r *Run) {
+	kv := c.KVList()[0]
+	k := DK{kv.DB, string(kv.Key)}
+	conc := &vfdoubles.Val{Kind: "string", Str: []byte("CONCURRENT")}
+	switch c.Pol {
+	case "ignore":
+		if r.Final != "ok" {
+			// the transaction batcher reports the BUSYKEY slot of the EXEC reply as an
+			// error before validateBisyncRdbExecReplies' tolerance is reached: the
+			// replay fails (and is repeated) — the key itself must be intact
+			s.Count("observed_window_ignore_busykey_fails_the_replay")
+		}
+		if !SameVal(conc, r.After[k]) {
+			viol(s, "ignore-modified", fmt.Sprintf("key %q created between the probe and the EXEC was overwritten under policy ignore: %+v", k.Key, r.After[k]), c)
+		}
+	case "error":
+		if r.Final == "ok" {
+			viol(s, "error-not-raised", fmt.Sprintf("key %q created between the probe and the EXEC: no error", k.Key), c)
+		}
+		if !SameVal(conc, r.After[k]) {
+			viol(s, "error-modified", fmt.Sprintf("key %q created between the probe and the EXEC was overwritten under policy error: %+v", k.Key, r.After[k]), c)
+		}
+	default:
+		want := ExpectVal(kv, true, BubbleNowMs)
+		if r.Final != "ok" || !SameVal(want, r.After[k]) {
+			viol(s, "replace-final", fmt.Sprintf("key %q created between the probe and the EXEC: final %+v, want %+v (err %s)", k.Key, r.After[k], want, r.ErrText), c)
+		}
+	}
+	s.Count("mon_window_" + c.Pol)
+}
+
 // ---------------------------------------------------------------- generators
 
 func genKV(r *vfutil.Rand, i int, dbs int) KVSpec {
@@ -577,7 +754,58 @@ func GenCase(r *vfutil.Rand, mode string, dbs int) *Case {
 		}
 		c.KVs = append(c.KVs, kv)
 	}
+	if dbs > 1 && len(c.KVs) > 0 && r.Chance(1, 3) {
+		// the same key NAME as a snapshot key of both DBs (the remembered ignore
+		// decision of one must not leak into the other)
+		src := c.KVs[r.Intn(len(c.KVs))]
+		twin := genKV(r, 9, dbs)
+		twin.Key = src.Key
+		twin.DB = 1 - src.DB
+		if r.Bool() {
+			twin.Type = src.Type
+			if twin.Type == 0 {
+				twin.Str, twin.Items = vfutil.HexS("twin"), nil
+			} else if twin.Type == 4 {
+				twin.Items = []string{vfutil.HexS("t1"), vfutil.HexS("w1"), vfutil.HexS("t2"), vfutil.HexS("w2"), vfutil.HexS("t3"), vfutil.HexS("w3")}
+			} else if twin.Type == 3 {
+				twin.Items = []string{vfutil.HexS("tz"), vfutil.HexS("9")}
+			} else {
+				twin.Items = []string{vfutil.HexS("t1"), vfutil.HexS("t2")}
+			}
+			twin.Str = map[bool]string{true: twin.Str, false: ""}[twin.Type == 0]
+		}
+		dup := false
+		for _, kv := range c.KVs {
+			if kv.DB == twin.DB && kv.Key == twin.Key {
+				dup = true
+			}
+		}
+		if !dup {
+			c.KVs = append(c.KVs, twin)
+		}
+	}
 	sort.SliceStable(c.KVs, func(i, j int) bool { return c.KVs[i].DB < c.KVs[j].DB })
+	if r.Chance(1, 4) {
+		// the policy as a user may write it; the real code gets what config's fix() makes of it
+		c.UseRaw = true
+		switch c.Pol {
+		case "replace":
+			c.PolRaw = vfutil.Pick(r, []string{"", "Replace", "REPLACE", "bogus", "replace ", "rep"})
+		case "ignore":
+			c.PolRaw = vfutil.Pick(r, []string{"Ignore", "IGNORE", "iGnore"})
+		default:
+			c.PolRaw = vfutil.Pick(r, []string{"Error", "ERROR", "eRRor"})
+		}
+	}
+	c.Log = r.Chance(1, 5)
+	if mode != "bisync" && c.Restore && r.Chance(1, 4) {
+		// a target that cannot load some payloads ("Bad data format")
+		for _, kv := range c.KVs {
+			if r.Bool() {
+				c.Bad = append(c.Bad, kv.Key)
+			}
+		}
+	}
 	for _, kv := range c.KVs {
 		if r.Chance(3, 5) {
 			kind := kindOf(kv.Type)
@@ -597,7 +825,74 @@ func GenCase(r *vfutil.Rand, mode string, dbs int) *Case {
 	if r.Chance(1, 4) {
 		c.Pre = append(c.Pre, Pre{Key: vfutil.HexS("foreign"), Kind: vfutil.Pick(r, Kinds), TTL: int64(r.Intn(2) * 5000)})
 	}
+	// one prior value per (db, key)
+	seenPre := map[string]bool{}
+	var pre []Pre
+	for _, p := range c.Pre {
+		id := fmt.Sprintf("%d/%s", p.DB, p.Key)
+		if !seenPre[id] {
+			seenPre[id] = true
+			pre = append(pre, p)
+		}
+	}
+	c.Pre = pre
 	return c
+}
+
+// ExhaustiveTwins: a split hash `h` in DB 0 and another split hash `h` in DB 1,
+// the target holding none / DB 0's / DB 1's / both, every policy, restore on/off.
+func ExhaustiveTwins(mode string) []*Case {
+	var out []*Case
+	h0 := KVSpec{DB: 0, Key: vfutil.HexS("h"), Type: 4, Exp: 2, Items: []string{vfutil.HexS("f1"), vfutil.HexS("v1"), vfutil.HexS("f2"), vfutil.HexS("v2"), vfutil.HexS("f3"), vfutil.HexS("v3")}}
+	h1 := KVSpec{DB: 1, Key: vfutil.HexS("h"), Type: 4, Exp: 0, Items: []string{vfutil.HexS("g1"), vfutil.HexS("w1"), vfutil.HexS("g2"), vfutil.HexS("w2"), vfutil.HexS("g3"), vfutil.HexS("w3")}}
+	for _, pol := range []string{"replace", "ignore", "error"} {
+		for _, restore := range []bool{false, true} {
+			for _, thr := range []int{1, 0} {
+				for pm := 0; pm < 4; pm++ {
+					c := &Case{Mode: mode, Pol: pol, Restore: restore, Thr: thr, MaxBulk: 1 << 29, Ver: "7.0.0", KVs: []KVSpec{h0, h1}}
+					if pm&1 != 0 {
+						c.Pre = append(c.Pre, Pre{DB: 0, Key: h0.Key, Kind: "hash", TTL: 60000})
+					}
+					if pm&2 != 0 {
+						c.Pre = append(c.Pre, Pre{DB: 1, Key: h1.Key, Kind: "hash"})
+					}
+					out = append(out, c)
+				}
+			}
+		}
+	}
+	return out
+}
+
+// ExhaustiveBad: the RESTORE path against a target that answers "Bad data
+// format": every value type × prior kind × policy × snapshot expiry.
+func ExhaustiveBad(mode string) []*Case {
+	var out []*Case
+	for _, c := range Exhaustive(mode) {
+		if !c.Restore || c.Thr != 0 {
+			continue
+		}
+		if len(c.Pre) > 0 && c.Pre[0].TTL != 0 {
+			continue
+		}
+		c.Bad = []string{c.KVs[0].Key}
+		out = append(out, c)
+	}
+	return out
+}
+
+// ExhaustivePolicyStrings: what config's fix() makes of the configured string.
+func ExhaustivePolicyStrings(mode string) []*Case {
+	var out []*Case
+	for _, raw := range []string{"", "replace", "Replace", "REPLACE", "ignore", "Ignore", "IGNORE", "error", "Error", "ERROR", "bogus", "ignore ", "errorr"} {
+		for _, restore := range []bool{false, true} {
+			c := &Case{Mode: mode, Pol: NormalPolicy(raw), PolRaw: raw, UseRaw: true, Restore: restore, MaxBulk: 1 << 29, Ver: "7.0.0",
+				KVs: []KVSpec{{Key: vfutil.HexS("key"), Type: 1, Items: []string{vfutil.HexS("a"), vfutil.HexS("b")}}},
+				Pre: []Pre{{Key: vfutil.HexS("key"), Kind: "list"}}}
+			out = append(out, c)
+		}
+	}
+	return out
 }
 
 // Exhaustive small scope: one key of every type × pre-existing kind × TTL ×
